@@ -17,6 +17,8 @@ type PSEnv struct {
 	alias   map[*ssa.Phi]ssa.Value
 	nilness map[ssa.Value]bool // true = nil
 	conds   map[string]bool
+	// sticky holds seeded facts (specialisation); never forgotten, shared by all clones
+	sticky map[string]bool
 }
 
 func newEnv(p *Prog) *PSEnv {
@@ -25,6 +27,7 @@ func newEnv(p *Prog) *PSEnv {
 
 func (e *PSEnv) clone() *PSEnv {
 	n := newEnv(e.p)
+	n.sticky = e.sticky
 	for k, v := range e.alias {
 		n.alias[k] = v
 	}
@@ -71,8 +74,15 @@ func (e *PSEnv) Nil(v ssa.Value) (bool, bool) {
 	case *ssa.MakeInterface, *ssa.Alloc, *ssa.MakeClosure, *ssa.MakeMap, *ssa.MakeSlice, *ssa.MakeChan, *ssa.FieldAddr, *ssa.IndexAddr, *ssa.Function:
 		return false, true
 	case *ssa.Call:
-		if e.p != nil && neverNil[e.p.CalleeName(x)] {
-			return false, true
+		if e.p != nil {
+			name := e.p.CalleeName(x)
+			if neverNil[name] {
+				return false, true
+			}
+			// errors.Wrap(err, …) is nil exactly when err is nil
+			if nilPreserving[name] && len(x.Call.Args) > 0 {
+				return e.Nil(x.Call.Args[0])
+			}
 		}
 	case *ssa.UnOp:
 		if x.Op == token.MUL {
@@ -93,7 +103,12 @@ func (e *PSEnv) MayBeNil(v ssa.Value) bool {
 	return !known || n
 }
 
+// stable: an SSA value never changes once defined (re-execution in a loop is handled by
+// forget), so every operand can key a remembered comparison.
 func stable(v ssa.Value) bool {
+	if v != nil {
+		return true
+	}
 	switch x := v.(type) {
 	case *ssa.Parameter, *ssa.Const, *ssa.FreeVar, *ssa.Call, *ssa.Extract, *ssa.Phi, *ssa.Function, *ssa.Global:
 		return true
@@ -209,6 +224,9 @@ func (e *PSEnv) assume(cond ssa.Value, val bool) bool {
 	}
 	if key, kneg, ok := e.condKey(c); ok {
 		v := val != kneg
+		if fixed, seeded := e.sticky[key]; seeded {
+			return fixed == v
+		}
 		if old, seen := e.conds[key]; seen {
 			return old == v
 		}
@@ -273,6 +291,33 @@ type PSResult struct {
 // reached and may reject the path based on what is known. It returns nil if no consistent
 // path exists.
 func (p *Prog) FindPathPS(from Loc, isTarget func(ssa.Instruction) bool, cut *Cut, accept func(env *PSEnv, target ssa.Instruction) bool) *PSResult {
+	return p.FindPathSeeded(from, isTarget, cut, accept, nil)
+}
+
+// Assume records that the boolean SSA value cond has value val on every explored path
+// (specialisation of a parameter, option or input byte); false if contradictory.
+func (e *PSEnv) Assume(cond ssa.Value, val bool) bool {
+	c, neg := Unnot(cond)
+	if neg {
+		val = !val
+	}
+	key, kneg, ok := e.condKey(c)
+	if !ok {
+		return false
+	}
+	if e.sticky == nil {
+		e.sticky = map[string]bool{}
+	}
+	v := val != kneg
+	if old, seen := e.sticky[key]; seen && old != v {
+		return false
+	}
+	e.sticky[key] = v
+	return true
+}
+
+// FindPathSeeded is FindPathPS with an initial environment prepared by seed.
+func (p *Prog) FindPathSeeded(from Loc, isTarget func(ssa.Instruction) bool, cut *Cut, accept func(env *PSEnv, target ssa.Instruction) bool, seed func(env *PSEnv)) *PSResult {
 	if cut == nil {
 		cut = NewCut()
 	}
@@ -313,7 +358,11 @@ func (p *Prog) FindPathPS(from Loc, isTarget func(ssa.Instruction) bool, cut *Cu
 		}
 	}
 	visited := map[string]bool{}
-	stack := []state{{from.B, from.I, newEnv(p), []*ssa.BasicBlock{from.B}}}
+	env0 := newEnv(p)
+	if seed != nil {
+		seed(env0)
+	}
+	stack := []state{{from.B, from.I, env0, []*ssa.BasicBlock{from.B}}}
 	n := 0
 	for len(stack) > 0 {
 		st := stack[len(stack)-1]
